@@ -19,7 +19,7 @@ CHECKS = {
          "A panic site reachable only through Lemire's lo == u64::MAX fallback (a ~2^-73 coincidence) is not reached by generation.", "DESIGN.md section 2, C04", "mlv supervisor"),
  "C05": ("differential testing: 8 separately compiled feature configurations linked into one process, bit comparison on generated boundary inputs",
          "Differential oracle (no reference value needed) over the C01/C02 generator mixture for both formats.",
-         "32-bit-limb targets are a compile-time variant that cannot be executed in this x86_64 sandbox.", "DESIGN.md section 2, C05", "mlv"),
+         "The 32-bit-limb variant is only interpreted (Miri, i686) on 150 inputs in the thorough tier; big-endian targets and the x87 `nightly` path are not executed.", "DESIGN.md section 2, C05", "mlv"),
  "C06": ("property-based testing with constructed long tails: deciding digit placed at chosen absolute positions (19-digit cut, MAX_DIGITS cut, chunk edges, 1e3..1e6), expectation by construction and by the exact oracle",
          "Every case has >= 20 significant digits and sits on a rounding boundary; positions sweep every cut-off the code has.",
          "Same oracle as C01.", "DESIGN.md section 2, C06", "mlv"),
@@ -44,9 +44,9 @@ CHECKS = {
  "C13": ("stateful model-based testing: generated operation histories interpreted against StackVec / HeapVec and a Vec<u64> reference, invariants after every step; stack poisoning; libFuzzer target fz_vec under ASan",
          "Histories sized to reach capacity, shrink and regrow; rejected growth must leave contents unchanged.",
          "Contents after a failed add_small/mul_small are unspecified.", "DESIGN.md section 2, C13", "mlv supervisor+libfuzzer"),
- "C14": ("complete enumeration of every exposed power constant and on-demand power in each configuration, recomputed from its mathematical definition with the harness's Nat",
+ "C14": ("complete enumeration of every exposed power constant and on-demand power in each configuration, recomputed from its mathematical definition with the harness's Nat; limb-width dependent constants also on the 32-bit-limb build interpreted by Miri",
          "Finite domain enumerated completely on every run (exhaustive: true): 651 x 128-bit Lemire entries, exponent formula, small integer/float tables, 5^135, Bellerophon tables, pow_fast_path, libm pow, integer powers via public routes.",
-         "Values are read from the compiled crate, not from source text; definitions re-derived from the generator scripts' closed forms.", "DESIGN.md section 2, C14", "mlv"),
+         "Values are read from the compiled crate, not from source text; definitions re-derived from the generator scripts' closed forms. The 32-bit-limb copy of 5^135 is checked under Miri (i686).", "DESIGN.md section 2, C14", "mlv"),
  "C15": ("counting global allocator around each parse_float call on generated big-integer-path inputs, with a positive control in the alloc configurations",
          "Zero-allocation contract observed per call in the 4 configurations without alloc.",
          "Allocation on a path no generated input takes is not observed.", "DESIGN.md section 2, C15", "mlv"),
